@@ -460,9 +460,13 @@ def boot_margin_checks(run, case, tables, props):
             s[3] += int(r["reporting"])
         rows = df.to_dict(orient="records")
         keys = [tuple(str(r[k]) for k in al) for r in rows]
-        if sorted(sums) != keys and ("C01" in props or "C02" in props):
+        if sorted(sums) != keys:
             run.diff("bootstrap aggregate table keys differ from the groups of the unit table", input=L, level=level,
                      impl=keys[:8], model=sorted(sums)[:8], replay_case=case_json(case))
+            if "C11" in props:
+                run.violation("an unexpected unit's votes are attributed to a group that is not its own (or a group is missing)",
+                              input=L, level=level, impl=keys[:8], expected=sorted(sums)[:8], predicate="groups_after_unexpected",
+                              signature="C11:group", replay_case=case_json(case))
             continue
         for r, key in zip(rows, keys):
             s = sums[key]
